@@ -376,7 +376,7 @@ def frozen_harness(e):
     reset_all()
     cname = e.pick(sorted(CLASSES), "class")
     cls = CLASSES[cname]
-    kw = {"child": VLeaf(v=1)} if cname == "VReq" else ({"pair": (VLeaf(v=1), VLeaf(v=2))} if cname == "VPair" else ({"first": VLeaf(v=1)} if cname in ("VMixed", "VInh") else {}))
+    kw = {"body": CLASSES["VColl"]()} if cname == "VHolder" else {"child": VLeaf(v=1)} if cname == "VReq" else ({"pair": (VLeaf(v=1), VLeaf(v=2))} if cname == "VPair" else ({"first": VLeaf(v=1)} if cname in ("VMixed", "VInh") else {}))
     node = cls(**kw)
     fields = [f.name for f in dataclasses.fields(node)]
     fname = e.pick(fields, "field")
